@@ -1063,7 +1063,7 @@ pub fn run_l2(scn: &C10Scenario, stats: &mut RunStats) -> Vec<Violation> {
                 pending_fault_pass = true;
                 pending_renotify = renotify.clone();
             }
-            Op::ConfigObject { .. } => {}
+            Op::ConfigObject { .. } | Op::FailFastNext => {}
             other => {
                 if !started {
                     continue;
